@@ -136,10 +136,13 @@ def run_one(job):
     res['fired'] = fired
     if compiled and not any(v['rc'] == 1 for v in fired.values()) and do_tests:
         env = dict(os.environ, CARGO_TARGET_DIR=os.path.join(d, '..', 'tgt-' + os.path.basename(d)), CARGO_NET_OFFLINE='true')
-        r = subprocess.run(['cargo', 'test', '--offline', '--no-fail-fast', '-q'], cwd=d, env=env,
-                           stdout=subprocess.PIPE, stderr=subprocess.STDOUT, text=True, timeout=900)
+        # a mutant that loses a wake-up makes a test wait forever: bound the run
+        r = subprocess.run(['timeout', '-k', '5', '400', 'cargo', 'test', '--offline', '--no-fail-fast', '-q'],
+                           cwd=d, env=env, stdout=subprocess.PIPE, stderr=subprocess.STDOUT, text=True)
         res['tests_pass'] = r.returncode == 0
-        if r.returncode != 0:
+        if r.returncode in (124, 137):
+            res['tests_fail_sample'] = ['HANG (timeout)']
+        elif r.returncode != 0:
             res['tests_fail_sample'] = [l for l in r.stdout.splitlines() if 'FAILED' in l or 'panicked' in l][:3]
     return res
 
@@ -157,9 +160,15 @@ def main():
         random.seed(1)
         random.shuffle(muts)
         muts = muts[:int(sys.argv[sys.argv.index('--limit') + 1])]
+    done = set()
+    if '--resume' in sys.argv and os.path.exists(out):
+        for l in open(out):
+            r = json.loads(l)
+            done.add((r['file'], r['line'], r['kind']))
+        muts = [m for m in muts if (m['file'], m['line'] + 1, m['kind']) not in done]
     print('%d mutants' % len(muts), flush=True)
     n = 0
-    with open(out, 'w') as fh, ThreadPoolExecutor(max_workers=jobs) as ex:
+    with open(out, 'a' if done else 'w') as fh, ThreadPoolExecutor(max_workers=jobs) as ex:
         for res in ex.map(run_one, [(m, do_tests) for m in muts]):
             fh.write(json.dumps(res) + '\n')
             fh.flush()
